@@ -11,7 +11,7 @@ const WORDS: &[&str] = &[
 ];
 const FORMATS: &[&str] = &[
     "%p", "'%p\\n'", "\"%p %s\\n\"", "'a b %U'", "x", "%%", "'%{fid}:%{projid}'", "'%A@,%C@,%T@'", "'%AH %TY'", "\\n", "'\\101\\t'", "'%{xattr:user}'", "'lit\\\\%m'", "%d", "'%y%Y'", "'\\c'",
-    "'\\f'", "'%h/%f'", "'%{stripe-count}-%{stripe-size}-%{mirror-count}'",
+    "'\\f'", "'%h/%f'", "'\\012x'", "'\\000'", "'a\\011b'", "'\\0'", "'\\07z'", "'%{stripe-count}-%{stripe-size}-%{mirror-count}'",
 ];
 
 pub fn member_args(lang: Lang, r: &mut Rng) -> Vec<String> {
@@ -88,8 +88,21 @@ pub fn member_args(lang: Lang, r: &mut Rng) -> Vec<String> {
                 _ => s,
             }]
         }
-        Lang::Format => vec![r.pick(FORMATS).to_string()],
-        Lang::WordFormat => vec![r.pick(WORDS).to_string(), r.pick(FORMATS).to_string()],
+        Lang::Format => vec![gen_fmt_word(r)],
+        Lang::WordFormat => vec![r.pick(WORDS).to_string(), gen_fmt_word(r)],
+    }
+}
+
+/// half from the fixed pool, half rendered from generated element lists (every directive, every
+/// escape incl. \\0NN octal escapes)
+fn gen_fmt_word(r: &mut Rng) -> String {
+    if r.chance(1, 2) {
+        return r.pick(FORMATS).to_string();
+    }
+    let f = crate::gen::gen_format(r, false);
+    match crate::gen::format_text(&f).and_then(|t| crate::gen::word(&t, 1)) {
+        Some(w) => w,
+        None => r.pick(FORMATS).to_string(),
     }
 }
 
